@@ -163,8 +163,20 @@ def run(res, tier, seed, shard, nshards):
                 if quick and (hi + tls) % 3:
                     continue
                 jobs.append((h, seg, tls, "CONT-MODE", None))
+    # a re-established connection (run_forever(reconnect=...)): on_reconnect (on_open when it is not given) once and first, then
+    # every message of the new connection exactly once and in order - whatever state the lost connection was in when it went
+    for li, loss in enumerate(("eof", "reset", "eof-mid-frame", "eof-mid-message", "eof-mid-message-after-ping", "eof-in-header")):
+        for with_rc in (True, False):
+            for tls in (False, True):
+                for h in (("text", "binary", "ping"), ("frag2", "text"), ("binary", "frag3", "pong", "text")):
+                    if quick and (li + with_rc + tls + len(h)) % 2:
+                        continue
+                    jobs.append((h, loss, tls, "RECONNECT", with_rc))
     for ji, (h, seg, tls, sub, raising) in enumerate(jobs):
         if ji % nshards != shard:
+            continue
+        if sub == "RECONNECT":
+            reconnect_case(res, W, rng, h, seg, tls, raising)
             continue
         if sub == "VIA-PROXY":
             one(res, W, rng, h, seg, tls, set(CBS), None, via_proxy=True)
@@ -292,6 +304,84 @@ def one(res, W, rng, hist, seg, tls, enabled, raising_name, via_proxy=False):
             ok = False
     if ok:
         res.sample(case, cap=3)
+
+
+def reconnect_case(res, W, rng, hist, loss, tls, with_on_reconnect):
+    # connection 1: one complete message, then the loss (possibly in the middle of a frame / of a fragmented message)
+    first = "one-é"
+    pre = R.encode(R.TEXT, first.encode())
+    if loss == "eof-mid-frame":
+        pre += R.encode(R.TEXT, b"never completed")[:9]
+    elif loss == "eof-in-header":
+        pre += R.encode(R.BINARY, b"x" * 300)[:3]
+    elif loss == "eof-mid-message":
+        pre += R.encode(R.TEXT, b"par", fin=0)
+    elif loss == "eof-mid-message-after-ping":
+        pre += R.encode(R.BINARY, b"par", fin=0) + R.encode(R.PING, b"mid")
+    script1 = [(1.0, "frames", pre), (2.0, "reset" if loss == "reset" else "eof")]
+    evs = build_history(hist, rng)
+    script2, times, end = make_script(evs, "per-frame")
+    plan = [dict(outcome="ok", script=script1), dict(outcome="ok", script=script2)]
+    enabled = set(CBS) | ({"on_reconnect"} if with_on_reconnect else set())
+    out = {}
+
+    def scen():
+        H.reset_process_state()
+        run = appsim.AppRun(plan, url="wss://app.test/" if tls else "ws://app.test/", callbacks=enabled, last_repeats=False)
+        out["run"] = run
+        run.run_forever(reconnect=1)
+        return run
+
+    S = sched.Sched(horizon=300, watchdog=60)
+    failure = None
+    try:
+        S.run(scen)
+    except sched.SimFailure as e:
+        failure = e
+    run = out.get("run")
+    case = {"gen": "reconnect", "history_on_second_connection": hist, "loss": loss, "tls": tls, "on_reconnect": with_on_reconnect}
+    res.case(("reconnect", hist, loss, tls, with_on_reconnect), nontrivial=True)
+    res.count("reconnect_runs")
+
+    def bad(kind, detail, **kw):
+        res.violation(kind, f"reconnect after {loss} (tls={tls}, on_reconnect {'given' if with_on_reconnect else 'not given'}), second connection {hist}: {detail}", case,
+                      segmentation="reconnect", tls=tls, **kw)
+
+    if failure is not None or run is None:
+        if isinstance(failure, sched.WatchdogExpired):
+            res.inconc("watchdog")
+        else:
+            bad("no-return", f"{type(failure).__name__}: {failure}")
+        return
+    if len(run.servers) != 2:
+        bad("missing-callback", f"{len(run.servers)} connections were made, expected 2 (attempts {run.attempts})", callback="on_reconnect")
+        return
+    # callbacks attributed to the second connection: everything after the second connection was accepted
+    t2 = run.attempts[1][0]
+    second = [(t, n, a) for (t, n, a, ci, ac) in run.trace if t >= t2 and n not in ("on_close", "on_error")]
+    opener = "on_reconnect" if with_on_reconnect else "on_open"
+    exp = [(opener, ())]
+    for ev in evs:
+        if "msg" in ev:
+            op, data = ev["msg"]
+            exp += [("on_data", (data, op, True)), ("on_message", (data,))]
+        else:
+            exp.append((ev["ctl"][0], (ev["ctl"][1],)))
+    got = [(n, tuple(a)) for (t, n, a) in second]
+    if got != exp:
+        k = next((i for i, (g, e) in enumerate(zip(got, exp)) if g != e), min(len(got), len(exp)))
+        bad("callback-order" if k < len(got) and k < len(exp) else ("missing-callback" if k >= len(got) else "unexpected-callback"),
+            f"callbacks of the re-established connection differ at position {k}: expected {exp[k] if k < len(exp) else None!r}, got {got[k] if k < len(got) else None!r}",
+            callback=(exp[k][0] if k < len(exp) else got[k][0]))
+        return
+    if any(type(x) is not type(y) for (gn, ga), (en, ea) in zip(got, exp) for x, y in zip(ga, ea)):
+        bad("callback-arguments", "argument types differ (text as str, binary as bytes)", callback="on_message", what="argument-type", fragmented=True)
+        return
+    res.count("callbacks_checked", len(got))
+    # the first connection's complete message was delivered, its unfinished one never
+    firsts = [a for (t, n, a, ci, ac) in run.trace if t < t2 and n == "on_message"]
+    if firsts != [(first,)]:
+        bad("callback-arguments", f"first connection delivered {firsts!r}, expected only the complete message", callback="on_message", what="arguments", fragmented=False)
 
 
 def _kind_of(e, evs):
